@@ -138,6 +138,16 @@ def bp(l, p, g='self._grid', gen='self'):
     return '(%s + %s)' % (a, b)
 
 
+def step(i, K, vi, vip1, g='self._grid', gen='self'):
+    """one Cox-de Boor step (template argument K = order + 1) at knot index i applied to the VALUES vi, vip1 of the two
+    lower-order functions at x = gu + XM(g, gj); zero-width terms dropped; weights as reciprocals (DESIGN R15)"""
+    x = '(gu + XM(%s, gj))' % g
+    return ('(KN(%s, %s + %d - 1) > KN(%s, %s) ? (1 / (KN(%s, %s + %d - 1) - KN(%s, %s))) * (%s - KN(%s, %s)) * %s : BS_ZERO)'
+            % (gen, i, K, gen, i, gen, i, K, gen, i, x, gen, i, vi)
+            + ' + (KN(%s, %s + %d) > KN(%s, %s + 1) ? (1 / (KN(%s, %s + %d) - KN(%s, %s + 1))) * (KN(%s, %s + %d) - %s) * %s : BS_ZERO)'
+            % (gen, i, K, gen, i, gen, i, K, gen, i, gen, i, K, x, vip1))
+
+
 def pv(sp, n):
     """value at the local coordinate gu of spline sp (order n-1) on the arbitrary interval gj, 0 where unsupported"""
     return '(HASINT((%s)._support, gj) ? %s : BS_ZERO)' % (sp, evalp('COEF(%s, gj, %%d)' % sp, n, 'gu'))
